@@ -415,6 +415,17 @@ inline Res exec_sockres(const Args &a) {
   int n = -2, fam = 0, port = 0;
   uint8_t addr[128];
   int rc = shim_sock_resolve(cs, &n, &fam, &port, addr, msg);
+  if (rc == 0) {
+    // the single-address wrapper on the same string, without and with the ":0" completion (its failure path prints the completed copy)
+    char msg1[SHIM_MSG];
+    if (shim_sock_resolve_one(cs, n >= 1, msg1) != 0) {
+      char m1[400];
+      snprintf(m1, sizeof m1, "sock_resolve_one(%s): %s", hexs(s, 120).c_str(), msg1);
+      r.fail("sock-resolve-one", m1);
+      free(cs);
+      return r;
+    }
+  }
   free(cs);
   SockModel mod = sock_model(s);
   if (rc != 0) {
